@@ -15,6 +15,10 @@ for m in MODULES:
                 props |= set(cl.props)
         except Exception:
             pass
+        if 'C03' in props:
+            # what a step hands back to the emitter (C03) is also what makes asynchronous consumers run at all (C02) and what
+            # carries their failures back (C16)
+            props |= {'C02', 'C16'}
         CONTRACTS.append((m, C.__name__, sorted(props)))
 
 COMMON_TRUSTED = [
@@ -57,7 +61,7 @@ def _bounded(pid, script='df_enum.py', what='real accumulator vs pandas on the c
     return run
 
 
-for _pid in ('C06', 'C07', 'C11', 'C12'):
+for _pid in ('C06', 'C07', 'C11', 'C12', 'C16'):
     EXTRA_CHECKS[_pid] = [_bounded(_pid)]
 for _pid in ('C13', 'C08', 'C17', 'C10', 'C04'):
     EXTRA_CHECKS[_pid] = [_bounded(_pid, 'pure_enum.py', 'the real helper disagrees with its meaning on this concrete input')]
